@@ -85,7 +85,7 @@ class Lexer:
             logical _or_ tokens. By default, `or` and `||` are equivalent.
     """
 
-    key_pattern = r"[\u0080-\uFFFFa-zA-Z_][\u0080-\uFFFFa-zA-Z0-9_-]*"
+    key_pattern = r"[\u0080-\U0010FFFFa-zA-Z_][\u0080-\U0010FFFFa-zA-Z0-9_-]*"
 
     # `not` or !
     logical_not_pattern = r"(?:not\b)|!"
@@ -99,16 +99,16 @@ class Lexer:
     def __init__(self, *, env: JSONPathEnvironment) -> None:
         self.env = env
 
-        self.double_quote_pattern = r'"(?P<G_DQUOTE>(?:(?!(?<!\\)").)*)"'
-        self.single_quote_pattern = r"'(?P<G_SQUOTE>(?:(?!(?<!\\)').)*)'"
+        self.double_quote_pattern = r'"(?P<G_DQUOTE>(?:[^"\\]|\\.)*)"'
+        self.single_quote_pattern = r"'(?P<G_SQUOTE>(?:[^'\\]|\\.)*)'"
 
         # .thing
         self.dot_property_pattern = rf"\.(?P<G_PROP>{self.key_pattern})"
 
         self.slice_list_pattern = (
-            r"(?P<G_LSLICE_START>\-?\d*)\s*"
-            r":\s*(?P<G_LSLICE_STOP>\-?\d*)\s*"
-            r"(?::\s*(?P<G_LSLICE_STEP>\-?\d*))?"
+            r"(?P<G_LSLICE_START>(?:\-?[0-9]+)?)\s*"
+            r":\s*(?P<G_LSLICE_STOP>(?:\-?[0-9]+)?)\s*"
+            r"(?::\s*(?P<G_LSLICE_STEP>(?:\-?[0-9]+)?))?"
         )
 
         # /pattern/ or /pattern/flags
@@ -139,8 +139,8 @@ class Lexer:
             (TOKEN_LIST_SLICE, self.slice_list_pattern),
             (TOKEN_FUNCTION, self.function_pattern),
             (TOKEN_DOT_PROPERTY, self.dot_property_pattern),
-            (TOKEN_FLOAT, r"-?\d+\.\d*(?:[eE][+-]?\d+)?"),
-            (TOKEN_INT, r"-?\d+(?P<G_EXP>[eE][+\-]?\d+)?\b"),
+            (TOKEN_FLOAT, r"-?[0-9]+\.[0-9]*(?:[eE][+-]?[0-9]+)?"),
+            (TOKEN_INT, r"-?[0-9]+(?P<G_EXP>[eE][+\-]?[0-9]+)?\b"),
             (TOKEN_DDOT, r"\.\."),
             (TOKEN_AND, self.logical_and_pattern),
             (TOKEN_OR, self.logical_or_pattern),
